@@ -87,7 +87,7 @@ func init() {
 	suites["db"] = func() suite {
 		return &dbSuite{profile: dbProfile}
 	}
-	for _, p := range []string{"kv", "structs", "mixed", "merge", "iso", "list", "set", "zset", "crash", "mcrash", "backup", "mergekv", "kvbig", "optskv", "optsmixed", "sparse"} {
+	for _, p := range []string{"kv", "structs", "mixed", "merge", "iso", "list", "set", "zset", "crash", "mcrash", "backup", "mergekv", "kvbig", "optskv", "optsmixed", "sparse", "isoset"} {
 		p := p
 		suites["db-"+p] = func() suite { return &dbSuite{profile: p} }
 	}
@@ -841,7 +841,7 @@ func (s *dbSuite) genKey(r *rand.Rand, b string) []byte {
 }
 
 func (s *dbSuite) genBucket(r *rand.Rand) string {
-	if s.profile == "iso" {
+	if s.profile == "iso" || s.profile == "isoset" {
 		return obsBuckets[r.Intn(len(obsBuckets))]
 	}
 	return obsBuckets[r.Intn(3)]
@@ -858,7 +858,7 @@ func (s *dbSuite) kindBucket(r *rand.Rand, kind string) string {
 		}
 		return []string{"a", "a", "a", "b", "c"}[r.Intn(5)]
 	}
-	if s.profile == "iso" || r.Intn(12) == 0 {
+	if s.profile == "iso" || s.profile == "isoset" || r.Intn(12) == 0 {
 		return s.genBucket(r)
 	}
 	m := map[string][]string{"kv": {"a", "ab"}, "list": {"a", "b"}, "set": {"b", "ab"}, "zset": {"ab", "a"}}
@@ -961,6 +961,9 @@ func (s *dbSuite) gen(r *rand.Rand, step int) string {
 		if s.optRng != nil && x < 4 {
 			x = 0 // options matter most around Close/Open: reopen often
 		}
+		if s.profile == "isoset" {
+			x = r.Intn(14) // reopen and merge often
+		}
 		if s.mergeNext {
 			s.mergeNext = false
 			x = 1
@@ -971,7 +974,7 @@ func (s *dbSuite) gen(r *rand.Rand, step int) string {
 			s.pendObs = false
 			s.opened = false
 			return "close"
-		case (x == 1 || ((x == 3 || x == 4 || x == 5) && s.profile == "mcrash")) && (s.profile == "merge" || s.profile == "mcrash"):
+		case (x == 1 || ((x == 3 || x == 4 || x == 5) && s.profile == "mcrash")) && (s.profile == "merge" || s.profile == "mcrash" || s.profile == "isoset"):
 			if s.profile == "mcrash" && !s.armedGen {
 				s.armedGen = true
 				s.mergeNext = true
@@ -1070,6 +1073,11 @@ func (s *dbSuite) genOp(r *rand.Rand, dead bool) string {
 	} else if kind == "structs" {
 		kind = []string{"list", "set", "zset"}[r.Intn(3)]
 	}
+	if s.profile == "isoset" {
+		// sets alone, in every bucket name, under keys and members whose bucket+key+member concatenations
+		// coincide across buckets, with merges and reopens (bucket isolation through Merge and recovery)
+		kind = "set"
+	}
 	if s.profile == "list" || s.profile == "set" || s.profile == "zset" {
 		kind = s.profile
 		if r.Intn(15) == 0 {
@@ -1152,6 +1160,11 @@ func (s *dbSuite) genOp(r *rand.Rand, dead bool) string {
 	case "set":
 		k := obsKeys[r.Intn(3)]
 		k2 := obsKeys[r.Intn(3)]
+		if s.profile == "isoset" {
+			ks := [][]byte{[]byte("a"), []byte("ab"), []byte("b"), []byte("ba"), {}, []byte("|b")}
+			k = ks[r.Intn(len(ks))]
+			k2 = ks[r.Intn(len(ks))]
+		}
 		b2 := s.kindBucket(r, "set")
 		switch r.Intn(18) {
 		case 0, 1, 2, 3:
